@@ -21,7 +21,7 @@ STUBS = ["the copy call itself runs natively on realised state (pickle's identit
          "__setstate__ are the real ones"]
 OUTSIDE = ["values outside [-2,2]", "async references", "class-level watchers"]
 ASSUMPTIONS = ["values in [-2,2] realised before the copy boundary"]
-N_PRE = 5
+N_PRE = 6
 N_POST = 11
 
 
@@ -100,6 +100,14 @@ def prog(subdep: bool, mech: int, helper: bool, pre1: int, pv1: int, post1: int,
     elif pre1 == 3:
         p.extra = [pv1]
     info = {'subdep': subdep, 'mech': ['deepcopy', 'pickle2', 'pickle5'][mech], 'helper': helper, 'pre': pre1}
+    cm = None
+    if pre1 == 5:
+        # the copy is taken while a batch is open on the original and an event is queued: the open batch and its queue
+        # belong to the original, the copy dispatches immediately
+        from param.parameterized import batch_call_watchers
+        cm = batch_call_watchers(p)
+        cm.__enter__()
+        p.y = pv1 + 5
     with untraced():
         try:
             if mech == 0:
@@ -109,6 +117,8 @@ def prog(subdep: bool, mech: int, helper: bool, pre1: int, pv1: int, post1: int,
             ok, err = True, None
         except Exception as e:      # noqa
             ok, err = False, '%s: %s' % (type(e).__name__, e)
+    if cm is not None:
+        cm.__exit__(None, None, None)
     check('C17.succeeds', ok, dict(info, err=err))
     check('C17.equal', q.x == p.x and q.l == p.l and q.param.x.bounds == p.param.x.bounds
           and getattr(q, 'extra', None) == getattr(p, 'extra', None) and q.sub.v == p.sub.v and q.n == p.n and q.r == p.r, info)
@@ -231,6 +241,6 @@ def shards(tier):
 
 
 def bounds(tier):
-    return dict(pre_history=1, post_history=2, mechanisms=['copy.deepcopy', 'pickle protocol 2', 'pickle protocol 5'],
+    return dict(pre_history=1, pre_ops=['set x', 'append to l', 'edit x.bounds', 'ordinary attribute', 'nothing', 'copy taken inside an open batch with a queued event'], post_history=2, mechanisms=['copy.deepcopy', 'pickle protocol 2', 'pickle protocol 5'],
                 values='fixed (2, 1, -1)' if tier == 'quick' else '[-2,2]',
                 post_ops=['set x', 'append to l', 'edit x.bounds', 'set sub.v', 'link r to a source Parameter', 'set r plain', 'update the source', 'append to the per-instance Selector.objects', 'update(x, y) with a two-parameter dependent method', 'batch on one restored object while another is assigned', 'unwatch through a watcher handle kept in an ordinary attribute'])
